@@ -408,3 +408,35 @@ def closure_arg_calls(ctx, body, outer_names):
                 if cb is not None:
                     out.append((bb, t, ai, cb))
     return out
+
+
+def spawned_future(ctx, an, fut):
+    """(task body, {captured name: expression}) for the future handed to a spawn call: an `async move { .. }` block of the
+    spawning function, or a call of a workspace `async fn` (its parameters are the captures)"""
+    from . import flow as _f
+    fut = _f.strip(fut)
+    if fut[0] == "agg" and fut[1].startswith("coroutine:"):
+        return ctx.prog.lib_bodies.get(fut[1].split(":", 1)[1]) or ctx.prog.bodies.get(fut[1].split(":", 1)[1]), dict(fut[2])
+    if fut[0] == "call":
+        key = None
+        for cand in (fut[2], fut[1]):
+            if not cand:
+                continue
+            for k, b in ctx.prog.bodies.items():
+                if b.kind in ("Fn", "AssocFn") and (b.name == cand or _f.short(b.name) == _f.short(cand)) and (k + "::{closure#0}") in ctx.prog.bodies:
+                    key = k
+                    break
+            if key:
+                break
+        if key:
+            fb = ctx.prog.bodies[key]
+            co = ctx.prog.bodies[key + "::{closure#0}"]
+            caps = {}
+            for blk in fb.blocks:
+                for s in blk.stmts:
+                    if s.kind == "assign" and s.rv.k == "agg" and s.rv.j.get("closure") == co.key:
+                        for fname, op in zip(s.rv.j.get("fields", []), s.rv.ops):
+                            if op.place is not None and op.place.is_local() and 1 <= op.place.local <= fb.arg_count and op.place.local - 1 < len(fut[3]):
+                                caps[fname] = fut[3][op.place.local - 1]
+            return co, caps
+    return None, {}
